@@ -2387,7 +2387,7 @@ class Recipe:
         saved_steps = [(step, {key: (copy(value) if isinstance(value, (list, set, dict)) else value)
                                for key, value in vars(step).items()}) for step in self.steps]
         try:
-            return self._bake()
+            return dict(self._bake())  # (the caller's own dict: the tracking queries keep reading self.results)
         except BaseException:
             self.results, self.used, self.stages, self.current_stage = saved_recipe
             for step, attributes in saved_steps:
